@@ -4,6 +4,7 @@ use std::panic;
 
 use serde_json::Value;
 
+mod address;
 mod decode;
 mod packet_window;
 mod ss_udp;
@@ -41,6 +42,7 @@ fn dispatch(entry: &str, spec: &Value) -> Result<Option<String>, String> {
         "packet_window_history" => packet_window::history(spec),
         "client_udp_refused_id" => ss_udp::client_refused_id(spec),
         "decode" => decode::run(spec),
+        "address_roundtrip" => address::roundtrip(spec),
         _ => Err(format!("unknown entry {entry}")),
     }
 }
